@@ -260,13 +260,19 @@ def run(ctx):
         ctx.broken("examples", "C05/Examples.v (non-vacuity) no longer checks: %s" % out_e[-400:])
 
     cases = []
-    for c in (ctx.replay or {}).get("cases", []):
-        cases.append(c)
-    for f in (ctx.replay or {}).get("failures", []):
-        if isinstance(f.get("case"), dict) and "mode" in f["case"]:
-            cases.append(f["case"])
+    rp = ctx.replay or {}
+    for c in rp.get("cases", []) + [f.get("case") for f in rp.get("failures", [])] + \
+            [(b.get("case") or {}).get("case") for b in rp.get("theorem_or_correspondence", []) + rp.get("broken", [])]:
+        if isinstance(c, dict) and c.get("mode") in ("half", "pair", "free"):
+            c = dict(c)
+            c.setdefault("why", "replay")
+            if c["mode"] == "half":
+                c.setdefault("cf", len(c.get("sched", [])) == 0)
+            cases.append(c)
+    n_replay = len(cases)
     cases += gen_half(ctx) + gen_pair(ctx) + gen_free(ctx)
-    proxy_cases = gen_proxy(ctx)
+    proxy_cases = [dict(f["case"], why="proxy/replay") for f in rp.get("failures", [])
+                   if isinstance(f.get("case"), dict) and f["case"].get("mode") == "proxy"] + gen_proxy(ctx)
     for c in cases:
         if c["mode"] == "half":
             t = c["dir"][0].upper()
@@ -385,7 +391,7 @@ def run(ctx):
             ctx.fail("not-closed/proxy", "the client connection was never closed by the relay", slim)
         if r["gleak"] > 0:
             ctx.fail("goroutine-leak/proxy", "%d goroutine(s) left behind after Proxy returned" % r["gleak"], slim)
-    ctx.sample({"case": {k: v for k, v in cases[5].items()}, "observed": res[5]})
+    ctx.sample({"case": {k: v for k, v in cases[n_replay + 5].items()}, "observed": res[n_replay + 5]})
     ctx.sample({"case": {k: v for k, v in cases[-70].items()}, "observed": res[-70]})
     ctx.sample({"case": proxy_cases[0], "observed": pres[0]})
     ctx.require_kinds(["half/nofault", "half/read-fault/data", "half/read-fault/nodata", "half/write-fault/short",
